@@ -177,7 +177,12 @@ func isRegionKey(k string) bool {
 func (x *Xlat) initial(key string, s Sort) *Term {
 	t := x.ctx.Named(key+"@0", s)
 	if _, done := x.ctx.constAxioms[t.Op]; !done {
-		if ax := regionAxiom(key, t); ax != nil {
+		var al, aal *Term
+		if key != allocKey && key != arrAllocKey {
+			al = x.ctx.Named(allocKey+"@0", ArrSort(SRef, SBool))
+			aal = x.ctx.Named(arrAllocKey+"@0", ArrSort(SInt, SBool))
+		}
+		if ax := regionAxiom(key, t, al, aal); ax != nil {
 			x.ctx.constAxioms[t.Op] = []*Term{ax}
 		} else {
 			x.ctx.constAxioms[t.Op] = nil
